@@ -126,7 +126,7 @@ func (fr *Frame) callFunc(fn *ssa.Function, pos token.Pos, st *State, args []*Te
 				return True
 			})
 			if err != "" {
-				fatal("contract error in ghostset of %s: %s", funcName(fn), err)
+				contractFatal("contract error in ghostset of %s: %s", funcName(fn), err)
 			}
 			srt := memArrays[locs[0].arr]
 			st.set(locs[0].arr, Store(st.get(locs[0].arr, srt), locs[0].addr, v))
